@@ -193,7 +193,17 @@ func H_Registry() {
 	forms := []int{kit.IdPlain, kit.IdNamed, kit.IdGroup, kit.IdAs, kit.IdMulti, kit.IdResObj2, kit.IdResObjGroup2, formAsBadLast, formAsBadFirst}
 	for s := 1; s <= L; s++ {
 		sfx := string(rune('0' + s))
-		op := vrt.Pick("op"+sfx, 0, 4)
+		lo, hi := 0, 4
+		if vrt.Param("prefix", 0) == 1 {
+			// histories that start with "Add, Build": the rest stays symbolic
+			if s == 1 {
+				lo, hi = 0, 0
+			}
+			if s == 2 {
+				lo, hi = 4, 4
+			}
+		}
+		op := vrt.Pick("op"+sfx, lo, hi)
 		switch op {
 		case 0, 1: // Add (directly / through a module)
 			slot := vrt.Pick("slot"+sfx, 0, 1)
